@@ -128,6 +128,8 @@ def gen_method(rng, trait, max_arity):
     m["um"] = gen_um(rng, len(m["params"]))
     if m["um"] is not None and rng.random() < 0.7:
         m["resp"] = "unmock"
+        # half of them reach the real function the other way: a partial mock whose only pattern REJECTS the call
+        m["reject"] = rng.random() < 0.4
     elif m["um"] is None and rng.random() < 0.08:
         m["resp"], m["missing_fn"] = "unmock", True     # applies_unmocked() with no registered function: panics naming the method
     return m
@@ -379,7 +381,15 @@ def rust_driver(ti, mi, trait):
         resp = f".answers_arc(Arc::new({closure}))"
     # (a call that panics with a mock error makes the final verification fail as well: not part of this observation)
     nv = ".no_verify_in_drop()" if m["resp"] == "unmock" and m.get("um") is None else ""
-    L = [f"fn case_{ti}_{mi}() {{", f"    let mut u = Unimock::new({entry}.{m['opener']}_call({matcher}){resp}){nv};"]
+    ctor = "Unimock::new"
+    L0 = []
+    if m["resp"] == "unmock" and m.get("um") is not None and m.get("reject") and m["opener"] != "next":
+        # fall-through of a partial mock: the matcher is shown the call (exactly once) and rejects it
+        matcher = matcher.replace("true })", "false })")
+        ctor = "Unimock::new_partial"
+        nv = ".no_verify_in_drop()"      # (a pattern that never matches is reported as a dead mock at verification: not part of this observation)
+        L0 = ["    push(\"X exact\".to_string());"]
+    L = [f"fn case_{ti}_{mi}() {{"] + L0 + [f"    let mut u = {ctor}({entry}.{m['opener']}_call({matcher}){resp}){nv};"]
     recv = m["recv"]
     if recv in ("rc", "arc"):
         L.append(f"    let u = {'Rc' if recv == 'rc' else 'Arc'}::new(u);")
@@ -525,10 +535,11 @@ def proj(lines):
     matcher count only as zero / non-zero)"""
     out = []
     lines = own_receiver_check(lines)
-    for l in lines:
+    exact = bool(lines) and lines[0] == "X exact"      # (harness marker) every matcher invocation counts: nothing is collapsed
+    for l in lines[1:] if exact else lines:
         if l.startswith("C "):
             l = re.sub(r" m=(\d+)", lambda mo: " m=0" if mo.group(1) == "0" else " m>0", l)
-        if l.startswith("M") and out and out[-1] == l:
+        if l.startswith("M") and out and out[-1] == l and not exact:
             continue
         out.append(l)
     return out
